@@ -51,6 +51,11 @@ fn c18_livelist_transmit() {
         vassert!(ll.cursor == succ(pre_cursor) || (succ(pre_cursor) == ts && ll.cursor == succ(ts)), "C18/sweep: the sweep advances to the next address, wrapping after 125 (only the scanning station's own address may be skipped)");
         vassert!(!ll.current_address_done, "C18/sweep: the next address is pending");
         kani::cover!(pre_cursor == 125, "cover: sweep wraps");
+    } else if res.is_none() {
+        // declining is acceptable only when the station offers nothing but a high-priority cycle,
+        // and it must not lose the pending address
+        vassert!(hp == HighPrioOnly::Yes, "C18/sweep: a pending address is probed when the station offers a regular cycle");
+        vassert!(ll.cursor == pre_cursor && !ll.current_address_done, "C18/sweep: a declined turn does not skip the pending address");
     } else {
         let r = res.unwrap();
         // the probe goes to the cursor address; a cursor sitting on the scanning station's own
@@ -126,4 +131,101 @@ fn c18_livelist_reply_or_timeout() {
     }
     vassert!(ll.current_address_done && ll.cursor == addr, "C18/sweep: the address is done, the cursor moves with the next turn");
     vassert!(ll.take_last_event().is_none(), "C18/events: an event is handed out once");
+}
+
+// Bounded history: K consecutive address visits (ask, answer or stay silent, ask again = advance)
+// from an arbitrary live-list state against a stable responder population with symbolic reply
+// losses.  Composition of the one-step lemmas over several callbacks: consecutive addresses are
+// visited in sweep order, an address is probed once per visit, after a visit without loss the
+// list agrees with the population at that address and keeps agreeing, and the events handed out
+// alternate per address (checked against a ghost copy of the list).
+fn livelist_history<const K: usize>() {
+    let fdl = any_fdl();
+    let ts = fdl.parameters().address;
+    let mut ll = any_live_list();
+    let responders: [usize; 2] = [kani::any(), kani::any()];
+    let succ = |a: u8| if a >= 125 { 0 } else { a + 1 };
+    let mut ghost = ll.stations.data;
+    let mut visited: [u8; K] = [0; K];
+    let mut clean: [bool; K] = [false; K];
+    let mut prev: Option<u8> = None;
+    let mut k = 0;
+    while k < K {
+        let mut buf = [0u8; 8];
+        let now = crate::time::Instant::from_micros(kani::any::<u32>());
+        let mut res = ll.transmit_telegram(now, &fdl, TelegramTx::new(&mut buf), HighPrioOnly::No);
+        if res.is_none() {
+            // the application ended its turn (address done).  A late token may come in between: the
+            // station then offers only a high-priority cycle, which may be declined or used, but
+            // must not lose the pending address.  The next regular turn must probe.
+            if kani::any() {
+                let late = ll.transmit_telegram(now, &fdl, TelegramTx::new(&mut buf), HighPrioOnly::Yes);
+                if late.is_some() {
+                    res = late;
+                }
+            }
+            if res.is_none() {
+                res = ll.transmit_telegram(now, &fdl, TelegramTx::new(&mut buf), HighPrioOnly::No);
+            }
+        }
+        vassert!(res.is_some(), "C18/sweep: at most one empty turn between two probes");
+        let p = res.unwrap().expects_reply().unwrap();
+        vassert!(p <= 125, "C18/probe: only addresses 0..125 are probed");
+        if let Some(q) = prev {
+            vassert!(p == succ(q) || (succ(q) == ts && p == succ(ts)), "C18/sweep: consecutive visits probe consecutive addresses (only the scanning station's own address may be skipped)");
+        }
+        prev = Some(p);
+        visited[k] = p;
+        let lost: bool = kani::any();
+        let answers = bit(&responders, p) && p != ts;
+        let was = bit(&ghost, p);
+        if answers && !lost {
+            let state = any_response_state();
+            let t = Telegram::Data(DataTelegram {
+                h: DataTelegramHeader { da: ts, sa: p, dsap: None, ssap: None, fc: FunctionCode::Response { state, status: crate::fdl::ResponseStatus::Ok } },
+                pdu: &[],
+            });
+            ll.receive_reply(now, &fdl, p, t);
+            let ev = ll.take_last_event();
+            vassert!(ev == if was { None } else { Some(StationEvent::Discovered(StationDescription { address: p, state })) }, "C18/events: Discovered exactly when the address was not in the list (history)");
+            ghost[usize::from(p) / 64] |= 1usize << (usize::from(p) % 64);
+        } else {
+            ll.handle_timeout(now, &fdl, p);
+            let ev = ll.take_last_event();
+            vassert!(ev == if was { Some(StationEvent::Lost(p)) } else { None }, "C18/events: Lost exactly when the address was in the list (history)");
+            ghost[usize::from(p) / 64] &= !(1usize << (usize::from(p) % 64));
+        }
+        clean[k] = !(answers && lost);
+        vassert!(ll.stations.data[0] == ghost[0] && ll.stations.data[1] == ghost[1], "C18/list: the list changes only at the probed address, as the events say (history)");
+        k += 1;
+    }
+    // every address whose last visit was not hit by a loss agrees with the population
+    let mut i = 0;
+    while i < K {
+        let a = visited[i];
+        let mut later = false;
+        let mut j = i + 1;
+        while j < K {
+            later |= visited[j] == a;
+            j += 1;
+        }
+        if clean[i] && !later && a != ts {
+            vassert!(bit(&ll.stations.data, a) == bit(&responders, a), "C18/list: after a loss-free visit the list agrees with the population at that address (history)");
+        }
+        i += 1;
+    }
+    kani::cover!(visited[K - 1] < visited[0], "cover: the history wraps around address 125");
+    kani::cover!(clean[K - 1] && bit(&responders, visited[K - 1]) && visited[K - 1] != ts, "cover: a responder is listed at the end of the history");
+}
+
+#[kani::proof]
+#[kani::unwind(10)]
+fn c18_livelist_history_q() {
+    livelist_history::<4>();
+}
+
+#[kani::proof]
+#[kani::unwind(14)]
+fn c18_livelist_history_t() {
+    livelist_history::<12>();
 }
